@@ -83,9 +83,11 @@ def ev(node, env):
     if op == "neg":
         return -ev(node[1], env)
     if op == "sin":
-        return math.sin(ev(node[1], env))
+        a = ev(node[1], env)
+        return math.sin(a) if math.isfinite(a) else float("nan")
     if op == "cos":
-        return math.cos(ev(node[1], env))
+        a = ev(node[1], env)
+        return math.cos(a) if math.isfinite(a) else float("nan")
     if op == "tanh":
         return math.tanh(ev(node[1], env))
     if op == "sq":
